@@ -479,6 +479,10 @@ def gen_op(r, w, i):
         good = [G.rule(r, r.choice(["style", "comment", "unknown", "page"])) for _ in range(r.randrange(1, 4))]
         if abort:
             good.insert(r.randrange(1, len(good) + 1), r.choice(['@namespace zz "late";', '@charset "utf-8";', '@import "late.css";']))
+        if r.random() < 0.4:
+            # the list starts with @namespace rules: one that declares a URI of the sheet under another prefix
+            # supersedes (removes) the sheet's own rule when it is accepted - a later refusal has to bring that back
+            good[0:0] = [G.namespace_rule(r) for _ in range(r.randrange(1, 3))]
         return {"op": "mut", "t": r.choice(["sheet", "sheet", "rule"]), "kind": "MEDIA_RULE", "i": i_, "m": "insert_rule_list", "a": [" ".join(good), r.randrange(0, 9)], "abort": "after_accepted_part" if abort else None}
     if choice == "charset":
         m = r.choice(["set:cssText", "set:encoding"])
